@@ -390,7 +390,7 @@ func (o *cmC08) nontrivial(m *chainMachine) bool {
 var cmBidProfile = cmProfile{weights: map[string]int{
 	"deployCreate": 4, "marketRound": 3, "advance": 2, "provider": 5, "audit": 6,
 	"leaseClose": 1, "bidClose": 1, "deployClose": 1, "leaseWithdraw": 0, "groupStart": 1, "groupPause": 1, "groupClose": 1,
-	"cert": 0, "wrongSigner": 1, "deployDeposit": 0, "withdrawThenClose": 0, "bidCreate": 10, "leaseCreate": 3, "nearMissBid": 5,
+	"cert": 0, "wrongSigner": 1, "deployDeposit": 0, "withdrawThenClose": 0, "bidCreate": 10, "leaseCreate": 3, "nearMissBid": 5, "govParamChange": 1,
 }}
 
 func TestVerif_C08(t *testing.T) {
